@@ -32,7 +32,9 @@ OPEN_STATEMENTS = [
     'covered here by the oracle against the operator built from the tensors by the checker',
     'matvec_sound (matvec_term_sound + matvec_linear), diagonal_term_sound and parallel_matvec_sound are proved at the '
     'level stated in Properties/C06.lean (per term resp. per entry); diagonal_sound covers the sum over the terms',
-    'truncated boson / quadrature matrices (sqrt amplitudes): numeric correspondence only',
+    'truncated boson matrices: boson_term_sound_partial relates the Model column (amplitude sqrt(R)) of a word that '
+    'does not hit the cut-off to the polynomial Spec up to diag(sqrt(n!)); the cut-off, the index arithmetic, the '
+    'float sum over terms and the QuadOperator route are numeric correspondence only',
     'expectation / variance / eigenspectrum: contract-only glue over scipy, numeric correspondence',
     'OS-level behaviour of multiprocessing.Pool (fork, pickling, worker death) is not expressible',
 ]
@@ -1623,18 +1625,6 @@ VEC_DTYPES = ['bool', 'uint8', 'uint16', 'uint32', 'uint64', 'int8', 'int16', 'i
               'float16', 'float32', 'float64', 'complex64', 'complex128']
 
 
-def f06c_class(op, dtype_name):
-    """finding F06c: integer-dtype vector, and a term without Y / Z whose coefficient is integer-typed:
-    `coefficient * numpy.concatenate(vecs)` is then evaluated in the vector's integer dtype and wraps"""
-    import numpy
-    if numpy.dtype(dtype_name).kind not in 'iu':
-        return False
-    for t, c in op.terms.items():
-        if all(a == 'X' for _, a in t) and isinstance(c, (int, numpy.integer)) and not isinstance(c, bool):
-            return True
-    return False
-
-
 def stream_vector_dtypes(ctx):
     import numpy
     of = ctx.of
@@ -1709,10 +1699,8 @@ def stream_vector_dtypes(ctx):
                 nq = max(nq, of.count_qubits(op))
                 x = vec(dt, 2 ** nq)
                 jop = enc_op('qubit', op.terms)
-                known_class = f06c_class(op, dt)
                 base = {'a': jop, 'n_qubits': nq, 'family': family, 'x_dtype': dt, 'x': [str(v) for v in x.tolist()],
-                        'coefficient_types': sorted({type(c).__name__ for c in op.terms.values()}),
-                        'f06c_class': known_class}
+                        'coefficient_types': sorted({type(c).__name__ for c in op.terms.values()})}
                 x0 = x.copy()
                 calls = [('LinearQubitOperator * x', lambda: of.LinearQubitOperator(op, nq) * x),
                          ('LinearQubitOperator.matvec', lambda: of.LinearQubitOperator(op, nq).matvec(x)),
@@ -1745,14 +1733,13 @@ def stream_vector_dtypes(ctx):
                         if ye != want:
                             bad = [i for i in range(len(want)) if ye[i] != want[i]][:4]
                             st.violate('vector-dtype: %s != (matrix of the operator) x' % name, case,
-                                       {'indices': bad, 'got': [str(ye[i]) for i in bad], 'want': [str(want[i]) for i in bad],
-                                        'f06c_class': case['f06c_class']})
+                                       {'indices': bad, 'got': [str(ye[i]) for i in bad], 'want': [str(want[i]) for i in bad]})
                 B.ask({'op': 'c06.spec_matvec', 'alg': 'qubit', 'n': nq, 'a': jop, 'x': xj}, cbs)
 
                 def cbm(m, results=results):
                     want = j_vec(m)
                     for name, case, ye in results[:1]:
-                        if ye != want and not case['f06c_class']:
+                        if ye != want:
                             st.disagree('matvec (Model is dtype-free: the result is complex whatever the input dtype)',
                                         case, [str(v) for v in ye[:6]], [str(v) for v in want[:6]])
                 B.ask({'op': 'c06.matvec', 'a': jop, 'x': xj}, cbm)
@@ -1778,7 +1765,7 @@ def stream_vector_dtypes(ctx):
                         st.violate('vector-dtype: expectation raised %s' % got.split(':')[0], case, {'error': got})
                     elif not abs(complex(got) - e1) <= 1e-9 * max(1.0, abs(e1)):
                         st.violate('vector-dtype: expectation(LinearQubitOperator, x) != x^dagger M x', case,
-                                   {'got': str(got), 'want': str(e1), 'f06c_class': base['f06c_class']})
+                                   {'got': str(got), 'want': str(e1)})
                 B.ask({'op': 'c06.spec_matvec', 'alg': 'qubit', 'n': nq, 'a': jop, 'x': xj}, cbe)
     B.flush()
     return st
@@ -1786,27 +1773,6 @@ def stream_vector_dtypes(ctx):
 
 def run(ctx):
     return [stream_sparse(ctx), stream_linear(ctx), stream_boson(ctx), stream_numeric(ctx), stream_hardening(ctx), stream_large(ctx), stream_vector_dtypes(ctx)]
-
-
-def classify(v):
-    """F06c: integer-dtype vector and an integer-typed coefficient on a term without Y / Z: the product
-    `coefficient * numpy.concatenate(vecs)` is evaluated in the vector's integer dtype and wraps around."""
-    if v.get('what', '').startswith('vector-dtype:') and ' != ' in v.get('what', ''):
-        if (v.get('input') or {}).get('f06c_class') and (v.get('detail') or {}).get('f06c_class'):
-            return 'F06c'
-    return None
-
-
-def probe_known(ctx, k):
-    if k.get('id') != 'F06c':
-        return False
-    import numpy
-    of = ctx.of
-    try:
-        y = of.LinearQubitOperator(of.QubitOperator('X0', 2), 1) * numpy.array([200, 3], dtype='uint8')
-        return not (complex(y[1]) == 400 and complex(y[0]) == 6)
-    except Exception:
-        return True
 
 
 def replay(ctx, payload):
